@@ -233,8 +233,9 @@ def run_check(cid, tier, only=None, verbose=True):
                                replay=dict(failures=rr.get('failures'), status=rr.get('status'), error=rr.get('error'),
                                            observed=rr.get('observed'))), open(rp, 'w'), indent=1, default=str)
                 if hit:
-                    known_hits.append((sig, hit[0][2]))
-                else:
+                    if (sig, hit[0][2]) not in known_hits:
+                        known_hits.append((sig, hit[0][2]))
+                elif (sig, rp) not in violations:
                     violations.append((sig, rp))
         elif r.get('sat', 0) or r.get('unknown', 0):
             problems.append(f'{it.name}: {r.get("sat",0)} sat / {r.get("unknown",0)} unknown goals without reproduced '
@@ -281,8 +282,10 @@ def run_check(cid, tier, only=None, verbose=True):
         print(f'KNOWN-FINDING: property={cid} {sig} {line}')
     for p in problems:
         print('INCONCLUSIVE:', p[:2000])
-    for sig, rp in violations:
+    for sig, rp in violations[:8]:
         print(f'VIOLATION property={cid} replay={rp}')
+    if len(violations) > 8:
+        print(f'... and {len(violations) - 8} more violations (see evidence/{cid}.json)')
     if violations:
         return 1
     if problems:
